@@ -11,6 +11,7 @@ import (
 	"strconv"
 	"strings"
 	"sync"
+	"time"
 
 	"kmc/core"
 	"kmc/litmus"
@@ -32,7 +33,17 @@ func RaceRun(args []string) int {
 	for _, sc := range allScenarios(true) {
 		drv.Files(sc.Files)
 		for i := 0; i < reps; i++ {
-			o := drv.RunNative(sc.Args...)
+			// a free run normally takes milliseconds; a run that is still going after
+			// 90 s hangs (deadlock on the real runtime)
+			done := make(chan *core.Outcome, 1)
+			go func() { done <- drv.RunNative(sc.Args...) }()
+			var o *core.Outcome
+			select {
+			case o = <-done:
+			case <-time.After(90 * time.Second):
+				fmt.Fprintf(os.Stderr, "RACERUN-HANG scenario=%s\n", sc.Name)
+				os.Exit(0)
+			}
 			n++
 			if o.Panic != "" {
 				fmt.Fprintf(os.Stderr, "RACERUN-PANIC scenario=%s: %s\n", sc.Name, o.Panic)
@@ -84,6 +95,11 @@ func raceTier(e *core.Env, reps int) {
 		return
 	}
 	out := stderr.String()
+	if hm := regexp.MustCompile(`RACERUN-HANG scenario=(\S+)`).FindStringSubmatch(out); hm != nil {
+		e.Violation("C19:hang-free-running:"+scenarioClass(hm[1]), "the command did not terminate within 90 s when run free on the real Go runtime (normal: milliseconds); scenario "+hm[1],
+			map[string]string{"scenario": hm[1]}, nil)
+		return
+	}
 	m := regexp.MustCompile(`RACERUN-DONE executions=(\d+)`).FindStringSubmatch(out)
 	if m == nil {
 		e.EngineError("race run did not finish:\n%s", tailStr(out, 30))
